@@ -115,6 +115,11 @@ func (db *SingleBucketBackend) ListBucket(bucket string, prefix *gofakes3.Prefix
 func (db *SingleBucketBackend) getBucketWithFilePrefixLocked(bucket string, prefixPath, prefixPart string) (*gofakes3.ObjectList, error) {
 	response := gofakes3.NewObjectList()
 
+	if stat, err := db.fs.Stat(filepath.FromSlash(prefixPath)); err == nil && !stat.IsDir() && prefixPath != "" {
+		// The directory part of the prefix names an object, not a directory:
+		return response, nil
+	}
+
 	dirEntries, err := afero.ReadDir(db.fs, filepath.FromSlash(prefixPath))
 	if os.IsNotExist(err) && prefixPath != "" {
 		// No key starts with the directory part of the prefix:
